@@ -38,6 +38,15 @@ func scaleCases(tier string) []scalekit.Case {
 	for n := 0; n <= 20; n++ {
 		out = append(out, scalekit.Case{Shape: "uses-substatements", N: n})
 	}
+	// names that stand in a relation to each other: a grouping whose name is an import prefix followed
+	// by the name of a grouping of the imported module (variant bits: 1 the local grouping lives in a
+	// submodule, 2 the using site is in the submodule, 4 a separator - or . or _ stands between the two
+	// parts (N picks it), 8 the imported module's grouping has the longer name)
+	for n := 0; n < 4; n++ {
+		for v := 0; v < 16; v++ {
+			out = append(out, scalekit.Case{Shape: "grouping-named-prefix-plus-name", N: n, V: v})
+		}
+	}
 	// n sibling scopes each defining a grouping of one name and using it from inside, crossed with how
 	// the uses statements spell the name (variant bits: 1 own prefix, 2 a top-level grouping of that name
 	// exists as well, 4 written in a submodule, 8 every second scope spells it the other way)
@@ -173,6 +182,54 @@ func checkScale(cs scalekit.Case) scalekit.Verdict {
 					return scalekit.Bad("deviation-of-one-copy-lost", "[x y z added]", fmt.Sprint(c.Dir["gll"].Default))
 				case deviated && x.root == b && c.Dir["gc"].Dir["gli"].ListAttr.MaxElements != 2:
 					return scalekit.Bad("deviation-of-one-copy-lost", "max-elements 2", fmt.Sprint(c.Dir["gc"].Dir["gli"].ListAttr.MaxElements))
+				}
+			}
+		}
+	case "grouping-named-prefix-plus-name":
+		inSub, useInSub, withSep, longer := cs.V&1 != 0, cs.V&2 != 0, cs.V&4 != 0, cs.V&8 != 0
+		sep := ""
+		if withSep {
+			sep = []string{"-", ".", "_", "-"}[cs.N]
+		}
+		pfx := []string{"if", "i", "if-x", "ifs"}[cs.N]
+		foreign, local := "state", pfx+sep+"state"
+		if longer {
+			// the other way round: the imported grouping's name is the local one's behind the prefix
+			foreign, local = "state"+sep+"x", pfx+"state"+sep+"x"
+		}
+		lib := fmt.Sprintf(`module lib { namespace "urn:lib"; prefix lib; grouping %s { leaf from-lib { type string; } } grouping %s { leaf from-lib-too { type string; } } }`, foreign, pfx+foreign)
+		defLocal := fmt.Sprintf(` grouping %s { leaf from-local { type int8; } }`, local)
+		use := fmt.Sprintf(` container port { uses %s; } container viaprefix { uses %s:%s; }`, local, pfx, foreign)
+		mainBody, subBody := "", ""
+		if inSub {
+			subBody += defLocal
+		} else {
+			mainBody += defLocal
+		}
+		if useInSub {
+			subBody += use
+		} else {
+			mainBody += use
+		}
+		files := []dump.File{{Name: "lib.yang", Text: lib},
+			{Name: "ports.yang", Text: `module ports { namespace "urn:ports"; prefix ports; import lib { prefix ` + pfx + `; } include ports-sub;` + mainBody + ` }`},
+			{Name: "ports-sub.yang", Text: `submodule ports-sub { belongs-to ports { prefix ports; } import lib { prefix ` + pfx + `; }` + subBody + ` }`}}
+		for _, rev := range []bool{false, true} {
+			ms, errs, lerr := scalekit.Load(files, rev)
+			if lerr != nil || len(errs) > 0 {
+				return scalekit.Bad("spurious-errors", "loads and processes", fmt.Sprint(lerr, dump.Errors(errs)))
+			}
+			root := yang.ToEntry(ms.Modules["ports"])
+			for c, want := range map[string]string{"port": "from-local", "viaprefix": "from-lib"} {
+				var ks []string
+				if e := root.Dir[c]; e != nil {
+					for k := range e.Dir {
+						ks = append(ks, k)
+					}
+				}
+				sortStrings(ks)
+				if strings.Join(ks, " ") != want {
+					return scalekit.Bad("uses-binds-a-grouping-of-a-related-name", c+": "+want, strings.Join(ks, " "))
 				}
 			}
 		}
